@@ -436,8 +436,18 @@ pub fn apply_storage_op(ex: &mut Exec, uid: u32, kind: &OpKind) -> R {
             *ex.stats.probes.entry("restricted_items_visited".into()).or_insert(0) += exp.len() as u64;
             if got != exp {
                 let d = crate::wexec::first_diff(&got, &exp);
+                // a wrong answer for a dead other-entity handle is also C03's subject
+                let stale_other = match (got.get(d), exp.get(d)) {
+                    (Some(g), Some(e)) if g.own == e.own && g.idx == e.idx => g
+                        .others
+                        .iter()
+                        .zip(e.others.iter())
+                        .zip(os.iter())
+                        .any(|((a, b), (hn, _))| a != b && ex.model.hs[*hn].dead),
+                    _ => false,
+                };
                 return Err(ex.viol(
-                    &["C13"],
+                    if stale_other { &["C13", "C03"] } else { &["C13"] },
                     "restricted-read",
                     format!(
                         "slot {} ({}): restricted join item {} is {:?}, expected {:?} (other entities {:?})",
@@ -532,8 +542,17 @@ pub fn apply_storage_op(ex: &mut Exec, uid: u32, kind: &OpKind) -> R {
             *ex.stats.probes.entry("restricted_items_visited".into()).or_insert(0) += exp.len() as u64;
             if got != exp {
                 let d = crate::wexec::first_diff(&got, &exp);
+                let stale_other = match (got.get(d), exp.get(d)) {
+                    (Some(g), Some(e)) if g.own == e.own && g.idx == e.idx => g
+                        .others
+                        .iter()
+                        .zip(e.others.iter())
+                        .zip(os.iter())
+                        .any(|((a, b), (hn, _, _))| a != b && ex.model.hs[*hn].dead),
+                    _ => false,
+                };
                 return Err(ex.viol(
-                    &["C13"],
+                    if stale_other { &["C13", "C03"] } else { &["C13"] },
                     "restricted-exclusive",
                     format!(
                         "slot {} ({}): exclusive restricted item {} is {:?}, expected {:?} (other entities {:?})",
